@@ -415,12 +415,16 @@ impl<'a> Run<'a> {
             "N" => {
                 let t = parts[1];
                 self.notif_pending.remove(t);
+                // logged before the slot is filled: the log order must stay a causal order
+                hemit("h_notify", t, &[]);
                 let f = probe::get().sh.lock().unwrap().invalidators.get(t).cloned();
+                // the actor may wake (and log) at once: mark the notification as pending first
+                self.tr.actor(t).pending_inval = true;
                 let accepted = f.map(|f| f()).unwrap_or(false);
-                if accepted {
-                    self.tr.actor(t).pending_inval = true;
+                if !accepted {
+                    self.tr.actor(t).pending_inval = false;
                 }
-                hemit("h_notify", t, &[("accepted", accepted.to_string())]);
+                hemit("h_notify_result", t, &[("accepted", accepted.to_string())]);
             }
             "G" => {
                 let t = parts[1].to_string();
